@@ -26,10 +26,56 @@ fn pos_line(x: &Option<Balance>) -> String {
     }
 }
 
+/// `ix.closebank <bank 16> => ok | err 6078`: the REAL lending_pool_close_bank through dispatch on a bank whose totals,
+/// position counters, version flag and unclaimed emissions are set (by state edit) at and around what the instruction
+/// tolerates
+fn closebank_lines(s: &Scen, rng: &mut Rng, k: usize, out: &mut Vec<String>) {
+    use anchor_lang::{InstructionData, ToAccountMetas};
+    use marginfi_type_crate::constants::CLOSE_ENABLED_FLAG;
+    let thr: i128 = I80F48::from_num(0.0001).to_bits();
+    for _ in 0..k {
+        let h = s.banks[rng.below(s.banks.len() as u64) as usize];
+        let mut w = s.w.clone();
+        let mut bk = w.bank(&h.bank);
+        let near = |rng: &mut Rng| -> i128 {
+            match rng.below(8) { 0 | 1 | 2 => 0, 3 => thr - 1, 4 => thr, 5 => thr + 1, 6 => rng.below(2 * thr as u64) as i128, _ => (rng.below(1_000_000) as i128) << 40 }
+        };
+        // a closable bank (dust below the tolerance everywhere) with exactly one field moved, or everything drawn freely
+        let dust = |rng: &mut Rng| -> i128 { match rng.below(3) { 0 => 0, 1 => thr - 1, _ => rng.below(thr as u64) as i128 } };
+        bk.total_asset_shares = I80F48::from_bits(dust(rng)).into();
+        bk.total_liability_shares = I80F48::from_bits(dust(rng)).into();
+        bk.emissions_remaining = I80F48::from_bits(dust(rng)).into();
+        bk.lending_position_count = 0;
+        bk.borrowing_position_count = 0;
+        bk.flags |= CLOSE_ENABLED_FLAG;
+        let free = rng.chance(1, 4);
+        let which = rng.below(8);
+        if free || which == 0 { bk.total_asset_shares = I80F48::from_bits(near(rng)).into(); }
+        if free || which == 1 { bk.total_liability_shares = I80F48::from_bits(near(rng)).into(); }
+        if free || which == 2 { bk.emissions_remaining = I80F48::from_bits(near(rng)).into(); }
+        if free || which == 3 { bk.lending_position_count = *rng.pick(&[0i32, 1, -1]); }
+        if free || which == 4 { bk.borrowing_position_count = *rng.pick(&[0i32, 1, 2]); }
+        if (free && rng.chance(1, 3)) || which == 5 { bk.flags &= !CLOSE_ENABLED_FLAG; }
+        w.set_bank(&h.bank, &bk);
+        let line = B::from_bank(&bk).line();
+        let ixn = solana_program::instruction::Instruction {
+            program_id: marginfi::ID,
+            accounts: marginfi::accounts::LendingPoolCloseBank { group: h.group, bank: h.bank, admin: s.admin }.to_account_metas(None),
+            data: marginfi::instruction::LendingPoolCloseBank {}.data(),
+        };
+        match w.exec(&ixn) {
+            Ok(()) => out.push(format!("ix.closebank {} => ok", line)),
+            Err(crate::world::ExecErr::Custom(c)) => out.push(format!("ix.closebank {} => err {}", line, c)),
+            Err(_) => {}
+        }
+    }
+}
+
 pub fn gen(rng: &mut Rng, n: usize, out: &mut Vec<String>) {
     let mut scratch = Report::default();
     while out.len() < n {
         let mut s = Scen::build(rng);
+        closebank_lines(&s, rng, 6, out);
         // seed liquidity
         for u in 0..s.users.len() {
             for b in 0..s.banks.len() {
@@ -50,6 +96,7 @@ pub fn gen(rng: &mut Rng, n: usize, out: &mut Vec<String>) {
                 Act::Borrow { u, b, amt } => ("ix.bor", u, b, amt, false),
                 Act::Repay { u, b, amt, all } => ("ix.rep", u, b, amt, all),
                 Act::CloseBalance { u, b } => ("ix.close", u, b, 0, false),
+                Act::Purge { u, b } => ("ix.purge", u, b, 0, false),
                 _ => {
                     let _ = s.step(&act, &mut scratch);
                     continue;
@@ -59,8 +106,10 @@ pub fn gen(rng: &mut Rng, n: usize, out: &mut Vec<String>) {
             let bank0 = s.w.bank(&h.bank);
             // outside this model: gated bank states, sunset banks, flagged accounts (their gates are C14 / C16 / C11 models)
             let acct0 = s.w.marginfi_account(&s.users[u].acct);
+            let sunset = bank0.flags & (marginfi_type_crate::constants::TOKENLESS_REPAYMENTS_ALLOWED | marginfi_type_crate::constants::TOKENLESS_REPAYMENTS_COMPLETE) != 0;
             if bank0.config.operational_state != BankOperationalState::Operational
-                || bank0.flags & (marginfi_type_crate::constants::TOKENLESS_REPAYMENTS_ALLOWED | marginfi_type_crate::constants::TOKENLESS_REPAYMENTS_COMPLETE) != 0
+                || (sunset && op != "ix.purge")
+                || (op == "ix.purge" && bank0.flags & marginfi_type_crate::constants::TOKENLESS_REPAYMENTS_COMPLETE == 0)
                 || acct0.account_flags != 0
             {
                 let _ = s.step(&act, &mut scratch);
